@@ -19,6 +19,8 @@ static void honest_gen(Plan *p, uint64_t run_seed, uint64_t variant, int tier)
 	if (rng_chance(&g, 1, 4)) p->cred_mode |= 1;
 	if (!p->mutual && rng_chance(&g, 1, 4)) p->cred_mode |= 4;
 	if (rng_chance(&g, 1, 3)) p->cred_mode |= 8;       /* 8 = the TLS_CONNECT objects are re-used, not fresh */
+	if (p->proto != P_TLS13 && rng_chance(&g, 1, 8)) p->cred_mode |= 32;     /* 32 = one entropy draw fails during a data write and the application writes again */
+	if (rng_chance(&g, 1, 8)) p->cred_mode = (p->cred_mode & ~1) | 16;     /* 16 = chains of the largest admissible size, minus (plan_seed mod 10) bytes */
 }
 
 void honest_oracle(const Plan *p, const HonestOut *o, RunResult *r)
@@ -76,14 +78,31 @@ static void honest_run(const Plan *p, RunResult *r)
 {
 	static HonestOut o;
 	const CredSet *cs = (p->cred_mode & 1) ? creds_get_eku((int)p->depth, p->proto == P_TLCP) : creds_get((int)p->depth, p->proto == P_TLCP);
-	conn_run(p, cs, &o, NULL, NULL);
-	honest_oracle(p, &o, r);
+	if (p->cred_mode & 16) {
+		const CredSet *mx = creds_get_max((int)p->depth, p->proto == P_TLCP, (int)((uint64_t)p->plan_seed % 10));
+		if (mx) cs = mx;
+	}
+	static Plan q;
+	q = *p;
+	if ((p->cred_mode & 32) && p->proto != P_TLS13) {
+		/* one entropy draw of one endpoint fails while it writes application data; the application writes again.
+		 * The fault-free run tells which draws belong to data writes. */
+		q.efail_node = -1; q.efail_at = -1;
+		conn_run(&q, cs, &o, NULL, NULL);
+		int node = (int)((uint64_t)p->plan_seed & 1);
+		uint64_t lo = o.draws_at_done[node], hi = o.draws_at_data_end[node];
+		if (o.hs_ret[0] == 1 && o.hs_ret[1] == 1 && hi > lo) {
+			q.efail_node = node; q.efail_at = (int64_t)(lo + ((uint64_t)p->plan_seed >> 1) % (hi - lo)); q.efail_rest = 0; q.efail_errno = 5;
+		} else q.cred_mode &= ~32;
+	} else q.cred_mode &= ~32;
+	conn_run(&q, cs, &o, NULL, NULL);
+	honest_oracle(&q, &o, r);
 	char what[256];
 	if (!r->violated && mon_state_violation(what, sizeof(what))) rr_violation(r, "state_corrupt", "%s", what);
 	r->nontrivial = g_sim.switches > 2;
 	r->nontrivial_id = g_sim.ileave;
-	snprintf(r->extra, sizeof(r->extra), "proto=%s mutual=%d depth=%d cred=%d bytes=%llu recs=%d",
-		g_proto_names[p->proto], (int)p->mutual, (int)p->depth, (int)p->cred_mode,
+	snprintf(r->extra, sizeof(r->extra), "proto=%s mutual=%d depth=%d cred=%d chain=%zu/%zu bytes=%llu recs=%d",
+		g_proto_names[p->proto], (int)p->mutual, (int)p->depth, (int)p->cred_mode, cs->srv_chain_len, cs->cli_chain_len,
 		(unsigned long long)(o.wrote[0] + o.wrote[1]), o.nrecs[0] + o.nrecs[1]);
 }
 
